@@ -91,6 +91,12 @@ pub fn oov_rows() -> Vec<Row> {
 }
 
 pub fn make_oov_world(name: &str, overrides: &[(&str, (u8, u8, u8))], providers: Vec<Provider>, with_input_plugin: bool) -> OovWorld {
+    make_oov_world_layers(name, overrides, providers, with_input_plugin, false)
+}
+
+/// `layered`: some of the words live in two user dictionaries instead of the system dictionary
+/// (whether "a candidate exists already" must not depend on the layer that supplied it)
+pub fn make_oov_world_layers(name: &str, overrides: &[(&str, (u8, u8, u8))], providers: Vec<Provider>, with_input_plugin: bool, layered: bool) -> OovWorld {
     let char_def = base_char_def(overrides);
     let unk_def = base_unk_def();
     let mut plist = Vec::new();
@@ -112,8 +118,12 @@ pub fn make_oov_world(name: &str, overrides: &[(&str, (u8, u8, u8))], providers:
         unk_def: unk_def.clone(),
         rewrite_def: rewrite_def.clone(),
         matrix: Matrix::distinct(10, 10),
-        system: oov_rows(),
-        users: vec![],
+        system: if layered { oov_rows().into_iter().filter(|r| !["ab", "アア", "1", "漢"].contains(&r.surface.as_str())).collect() } else { oov_rows() },
+        users: if layered {
+            vec![vec![Row::new("ab", 1, 2, 3500, P_NOUN), Row::new("1", 9, 9, 2478, P_NUM)], vec![Row::new("アア", 7, 7, 5000, P_NOUN), Row::new("漢", 7, 7, 4000, P_NOUN)]]
+        } else {
+            vec![]
+        },
         plugins,
         user_against_loaded: false,
     };
@@ -474,6 +484,8 @@ pub fn main(tier: Tier, replay: Option<String>) -> i32 {
             make_oov_world("W-oov-regex-relaxed", &[], vec![rx(true, 3), simple.clone()], false),
             make_oov_world("W-oov-simple-then-mecab", &[], vec![simple.clone(), Provider::MeCab], false),
             make_oov_world("W-oov-normalised", &[], vec![Provider::MeCab, simple.clone()], true),
+            make_oov_world_layers("W-oov-user-layers-mecab", &[], vec![Provider::MeCab, simple.clone()], false, true),
+            make_oov_world_layers("W-oov-user-layers-simple", &[], vec![simple.clone()], false, true),
         ];
         let bounds = tier.pick(TreeBounds { full_len: 3, ext_len: 6, max_special: 1 }, TreeBounds { full_len: 4, ext_len: 7, max_special: 2 });
         let b = json!({"tree": bounds.to_json(), "worlds": worlds.len()});
